@@ -19,6 +19,7 @@ import numpy as np
 from vt import alg, extract, sx, npshim
 from vt.alg import Ctx, X
 from vt.core import Ob, Verdict, Refuted, Unsupported, DISCHARGED, REFUTED
+from . import ops
 from . import common, patches
 
 PROP = "C09"
@@ -626,14 +627,17 @@ def build(tier, seed):
     obs.append(Ob("canary.pointload", ob_pointload, (True,), "P", expect=REFUTED))
     functions = {q: extract.get(SP, f"_Simu.{q}").describe() for q in ("__Bc_Integration_Dim", "__Bc_pointLoad", "__Bc_pressureload", "add_surfLoad", "add_lineLoad", "add_volumeLoad")}
     functions["Get_Elements_Nodes"] = extract.get(GP, "_GroupElem.Get_Elements_Nodes").describe()
+    GP_GROUPS = {'operators.load'}
+    obs += ops.obligations('C09', tier, GP_GROUPS)
+    obs.append(ops.selfcheck_ob('C09'))
     return dict(
         obs=obs, level="other", min_obligations=20,
         explanation=("The resultant lemma ties the clause to C06/C07. The point-load split is decided symbolically from the extracted source. Exclusive element selection is "
                      "enumerated exhaustively over all node subsets of small meshes. Resultants, first moments, thickness factor, stray nodes and pressure are run-time "
                      "contracts of the real load API on gmsh-generated box meshes (boundary groups as generated, prism meshes with mixed boundary) against closed-form integrals."),
-        trusted_base=["C06 partition of unity / linear completeness, C07 exactness of the rules", "gmsh mesher (external) for the X-tier meshes", "sympy integration for the closed forms"],
+        trusted_base=ops.GP_TRUST + ["C06 partition of unity / linear completeness, C07 exactness of the rules", "gmsh mesher (external) for the X-tier meshes", "sympy integration for the closed forms"],
         assumptions=["box domains with straight faces; polynomial intensities up to the rule's degree; one thickness value", "beam line loads: bounded native runs on one beam (C09.beam.lineload.*)"],
-        functions=functions,
+        functions={**functions, **ops.functions_under_contract(GP_GROUPS)},
         dropped=["P: D1-D5; X: imported code unmodified"],
         not_attempted=[],
     )
